@@ -7,6 +7,7 @@ package c06
 //	c06.importResources  correspondence: loader.importResources vs Include.importResources
 //	c06.applyInclude     correspondence: loader.ApplyInclude on a temporary directory tree vs Include.applyInclude
 //	                     in the executable world of Model/IncludePipe.lean
+//	c06.resolveEnv       correspondence: the resolvers of loader/environment.go vs Model/IncludeResolve.lean
 //	c06.paste            direct oracle on the real loader (metamorphic pair of real loads, c06lib/paste.go)
 
 import (
@@ -20,6 +21,7 @@ import (
 	"time"
 
 	"github.com/compose-spec/compose-go/v2/loader"
+	"github.com/compose-spec/compose-go/v2/types"
 
 	"verifharness/c06lib"
 	"verifharness/core"
@@ -33,6 +35,13 @@ type fpathArgs struct {
 type includeConfigArgs struct {
 	Source any  `json:"source"`
 	Absent bool `json:"absent,omitempty"`
+}
+
+// resolveArgs: one resolver of loader/environment.go on a model of any shape.
+type resolveArgs struct {
+	Model any               `json:"model"`
+	Env   map[string]string `json:"env"`
+	Which string            `json:"which"` // services | secrets | configs | all (ResolveEnvironment) | included (services, then secrets)
 }
 
 type importArgs struct {
@@ -88,6 +97,42 @@ func init() {
 			return map[string]any{"ok": core.EncodeVal(tgt)}
 		},
 		DriverOp: "importResources",
+		Judge:    judgeModel,
+	})
+	core.Register("c06.resolveEnv", &core.CheckDef{
+		Real: func(raw json.RawMessage) any {
+			var a resolveArgs
+			if err := json.Unmarshal(raw, &a); err != nil {
+				return map[string]any{"bad": err.Error()}
+			}
+			dict, ok := core.DecodeVal(a.Model).(map[string]any)
+			if !ok {
+				return map[string]any{"bad": "model"}
+			}
+			env := types.Mapping{}
+			for k, v := range a.Env {
+				env[k] = v
+			}
+			before := fmt.Sprint(env)
+			switch a.Which {
+			case "services":
+				loader.VerifC06ResolveServicesEnvironment(dict, env)
+			case "secrets":
+				loader.VerifC06ResolveSecretsEnvironment(dict, env)
+			case "configs":
+				loader.VerifC06ResolveConfigsEnvironment(dict, env)
+			case "included": // the else branch of loadYamlModel's last statement (pinned: included_branch_calls_are_source)
+				loader.VerifC06ResolveServicesEnvironment(dict, env)
+				loader.VerifC06ResolveSecretsEnvironment(dict, env)
+			default:
+				loader.ResolveEnvironment(dict, env)
+			}
+			if fmt.Sprint(env) != before {
+				return map[string]any{"bad": "the resolver wrote the environment"}
+			}
+			return map[string]any{"ok": core.EncodeVal(dict)}
+		},
+		DriverOp: "resolveEnv",
 		Judge:    judgeModel,
 	})
 	core.Register("c06.applyInclude", &core.CheckDef{
@@ -306,6 +351,7 @@ type gen struct {
 	fresh  bool // never reuse a resource name (override files: a reused name would be merged, not imported)
 	shared []string
 	tags   map[string]bool
+	envRes bool // resources may take their value from the environment (services/secrets/configs `environment`)
 }
 
 func (g *gen) tag(t string) { g.tags[t] = true }
@@ -339,10 +385,59 @@ func (g *gen) resources(doc map[string]any, max int) {
 			if g.clean {
 				def = cleanDef(kind, def)
 			}
+			if g.envRes {
+				def = g.envSourced(kind, def)
+			}
 			sec[name] = def
 		}
 		doc[kind] = sec
 	}
+}
+
+// envSourced gives a definition a source in the environment.  The variables are the ones the generated `.env` /
+// `env_file`s define (V, W, X) and one nobody defines: every resolver that runs on an included model — services
+// `environment` (list and mapping form, bare names), secrets `environment`, configs `environment` — is fed by the
+// included project's own environment, not only the interpolation of `${V}` templates.
+func (g *gen) envSourced(kind string, def any) any {
+	vars := []string{"V", "W", "X", "NOPE"}
+	switch kind {
+	case "services":
+		m, ok := def.(map[string]any)
+		if !ok || g.r.Intn(3) != 0 {
+			return def
+		}
+		if g.r.Intn(2) == 0 || !g.clean { // the mapping form is canonicalised into a list: outside the model's fragment
+			l := []any{}
+			for _, v := range vars {
+				if g.r.Intn(2) == 0 {
+					l = append(l, v)
+				}
+			}
+			m["environment"] = append(l, "K="+c06lib.Tmpl(g.r, "k"))
+			g.tag("service-environment-list")
+		} else {
+			e := map[string]any{"K": c06lib.Tmpl(g.r, "k")}
+			for _, v := range vars {
+				if g.r.Intn(2) == 0 {
+					e[v] = nil
+				}
+			}
+			m["environment"] = e
+			g.tag("service-environment-map")
+		}
+		return m
+	case "secrets":
+		if g.r.Intn(2) == 0 {
+			g.tag("secret-environment")
+			return map[string]any{"environment": vars[g.r.Intn(len(vars))]}
+		}
+	case "configs":
+		if g.r.Intn(3) == 0 {
+			g.tag("config-environment")
+			return map[string]any{"environment": vars[g.r.Intn(len(vars))]}
+		}
+	}
+	return def
 }
 
 // cleanDef keeps a definition loadable as a whole project (files referenced by a service need not exist).
@@ -563,7 +658,9 @@ func tagList(t map[string]bool) []string { return c06lib.SortedKeys(t) }
 
 // randomApply builds one ApplyInclude call on a random tree.
 func randomApply(ctx *core.Ctx, depth int) c06lib.ApplyArgs {
-	g := &gen{r: ctx.Rng, s: c06lib.NewScen(), names: map[string]int{}, tags: map[string]bool{}}
+	// envRes: the sub-load is loadYamlModel's included branch — services and secrets `environment` are resolved by it
+	// with the include's environment (model: `resolveModelEnv true`), configs are not
+	g := &gen{r: ctx.Rng, s: c06lib.NewScen(), names: map[string]int{}, tags: map[string]bool{}, envRes: true}
 	shape := ctx.Rng.Intn(4)
 	mainFile, projDir := "compose.yaml", ""
 	if shape >= 2 {
@@ -602,6 +699,15 @@ func runC06(ctx *core.Ctx) {
 	case "missingpd":
 		streamPasteMissingProjDir(ctx)
 		return
+	case "paste":
+		streamPaste(ctx)
+		return
+	case "resolve":
+		streamResolveEnv(ctx)
+		return
+	case "symlinks":
+		streamPasteSymlinks(ctx)
+		return
 	case "envfile":
 		streamEnvFromFile(ctx)
 		streamCloneOptions(ctx)
@@ -621,6 +727,8 @@ func runC06(ctx *core.Ctx) {
 	streamPaste(ctx)
 	streamPasteOptions(ctx)
 	streamPasteMissingProjDir(ctx)
+	streamPasteSymlinks(ctx)
+	streamResolveEnv(ctx)
 	streamEnvFromFile(ctx)
 	streamCloneOptions(ctx)
 }
@@ -1005,7 +1113,7 @@ func pasteArgs(g *gen, main string, entries []c06lib.Entry, env map[string]strin
 }
 
 func newGen(ctx *core.Ctx, clean bool) *gen {
-	return &gen{r: ctx.Rng, s: c06lib.NewScen(), names: map[string]int{}, tags: map[string]bool{}, clean: clean}
+	return &gen{r: ctx.Rng, s: c06lib.NewScen(), names: map[string]int{}, tags: map[string]bool{}, clean: clean, envRes: clean}
 }
 
 // diffPair returns two definitions of one resource that differ whatever the environment and the directories are.
@@ -1063,6 +1171,9 @@ func streamPaste(ctx *core.Ctx) {
 		if g.tags["diamond"] {
 			class = "diamond"
 		}
+		if g.tags["config-environment"] {
+			class = "config-environment" // open finding (findings/C06.txt): an included model leaves its configs unresolved
+		}
 		ctx.Add("c06.paste", pasteArgs(g, main, entries, c06Envs[ctx.Rng.Intn(len(c06Envs))], "paste", class))
 	}
 
@@ -1093,6 +1204,75 @@ func streamPaste(ctx *core.Ctx) {
 		g.s.AddYAML("compose.yaml", 0, map[string]any{"include": []any{entry}, "services": map[string]any{"a": svc("a-${V:-unset}")}})
 		ctx.Count("paste:env-precedence")
 		ctx.Add("c06.paste", pasteArgs(g, "compose.yaml", []c06lib.Entry{ent}, env, "paste", "env-precedence"))
+	}
+	// 2b. the same sixteen environments feeding every resolver that runs on an included model, one resource each:
+	//     services `environment` (list / mapping form), secrets `environment`, configs `environment`; the main file
+	//     uses the same variables, which the included project's files must not define for it.  Also nested once.
+	for mask := 0; mask < 16; mask++ {
+		for form := 0; form < 4; form++ {
+			for nest := 0; nest < 2; nest++ {
+				g := newGen(ctx, true)
+				env := map[string]string{}
+				if mask&1 != 0 {
+					env["V"] = "parent"
+				}
+				ent := c06lib.Entry{Paths: []string{"sub/inc.yaml"}, ProjDir: "sub"}
+				entry := map[string]any{"path": "sub/inc.yaml"}
+				if mask&2 != 0 {
+					g.s.AddEnv("sub/.env", [][]string{{"V", "dotenv"}, {"W", "w-${V}"}})
+				}
+				if mask&4 != 0 {
+					g.s.AddEnv("my.env", [][]string{{"V", "envfile"}, {"W", "w2-${V}"}})
+					entry["env_file"] = "my.env"
+					ent.EnvFiles = []string{"my.env"}
+				}
+				if mask&8 != 0 {
+					g.s.AddDir("pd")
+					g.s.AddEnv("pd/.env", [][]string{{"V", "pd-dotenv"}})
+					entry["project_directory"] = "pd"
+					ent.ProjDir = "pd"
+				}
+				inc := map[string]any{"services": map[string]any{"b": svc("b")}}
+				own := map[string]any{"services": map[string]any{"a": svc("a")}}
+				class := ""
+				switch form {
+				case 0:
+					inc["services"].(map[string]any)["b"].(map[string]any)["environment"] = []any{"V", "W", "K=k"}
+					own["services"].(map[string]any)["a"].(map[string]any)["environment"] = []any{"V", "W"}
+					class = "env-service-list"
+				case 1:
+					inc["services"].(map[string]any)["b"].(map[string]any)["environment"] = map[string]any{"V": nil, "W": nil, "K": "k"}
+					own["services"].(map[string]any)["a"].(map[string]any)["environment"] = map[string]any{"W": nil}
+					class = "env-service-map"
+				case 2:
+					inc["secrets"] = map[string]any{"sv": map[string]any{"environment": "V"}, "sw": map[string]any{"environment": "W"}}
+					own["secrets"] = map[string]any{"mw": map[string]any{"environment": "W"}}
+					class = "env-secret"
+				case 3:
+					inc["configs"] = map[string]any{"cv": map[string]any{"environment": "V"}, "cw": map[string]any{"environment": "W"}}
+					own["configs"] = map[string]any{"mw": map[string]any{"environment": "W"}}
+					class = "config-environment"
+				}
+				if nest == 0 {
+					g.s.AddYAML("sub/inc.yaml", mask%2, inc)
+					own["include"] = []any{entry}
+				} else {
+					// the entry sits in an included file: parent -> mid (no environment of its own) -> sub/inc.yaml
+					mid := map[string]any{"include": []any{entry}, "services": map[string]any{"mid": svc("mid")}}
+					g.s.AddYAML("sub/inc.yaml", mask%2, inc)
+					g.s.AddYAML("mid.yaml", 0, mid)
+					own["include"] = []any{"mid.yaml"}
+					ent = c06lib.Entry{Paths: []string{"mid.yaml"}, ProjDir: ""}
+					if form != 3 {
+						class += "-nested"
+					}
+					ctx.Count("paste:env-nested")
+				}
+				g.s.AddYAML("compose.yaml", 0, own)
+				ctx.Count("paste:" + class)
+				ctx.Add("c06.paste", pasteArgs(g, "compose.yaml", []c06lib.Entry{ent}, env, "paste", class))
+			}
+		}
 	}
 
 	// 3. conflicting and identical redefinitions
@@ -1369,7 +1549,11 @@ func streamPasteOptions(ctx *core.Ctx) {
 		o := pasteOptsOf(ctx.Rng.Intn(256))
 		ctx.Count("paste:options-partition")
 		ctx.Count("paste-options:" + o.Name())
-		a := pasteArgs(g, "compose.yaml", entries, c06Envs[ctx.Rng.Intn(len(c06Envs))], "paste", "options-partition")
+		class := "options-partition"
+		if g.tags["config-environment"] {
+			class = "config-environment"
+		}
+		a := pasteArgs(g, "compose.yaml", entries, c06Envs[ctx.Rng.Intn(len(c06Envs))], "paste", class)
 		a.Opts = o
 		ctx.Add("c06.paste", a)
 	}
@@ -1390,6 +1574,150 @@ func streamPasteMissingProjDir(ctx *core.Ctx) {
 		g.s.AddYAML("compose.yaml", 0, map[string]any{"include": []any{map[string]any{"path": "sub/inc.yaml", "project_directory": pd}}, "services": map[string]any{"a": svc("a")}})
 		ctx.Count("paste:missing-project_directory")
 		ctx.Add("c06.paste", pasteArgs(g, "compose.yaml", []c06lib.Entry{{Paths: []string{"sub/inc.yaml"}, ProjDir: pd}}, nil, "paste", "missing-project_directory"))
+	}
+}
+
+// streamResolveEnv: resolveServicesEnvironment / resolveSecretsEnvironment / resolveConfigsEnvironment / ResolveEnvironment
+// (hooks loader/verif_c06_resolve.go) vs Model/IncludeResolve.lean, on models of every shape — sections, entries,
+// `environment` values and list elements of every node kind, names the environment defines / defines as "" / does not
+// define, the empty name, an already present carrier — so that every branch of the model is reached (a validated load
+// only reaches the well-formed ones).
+func streamResolveEnv(ctx *core.Ctx) {
+	envs := []map[string]string{{}, {"V": "pv"}, {"V": "pv", "W": "", "X": "px"}, {"": "empty-name", "V=pv": "odd"}}
+	kinds := []any{nil, "s", 1, true, []any{}, map[string]any{}}
+	envVals := []any{nil, "", "V", "W", "NOPE", "V=pv", 3, true, []any{"V"}, map[string]any{"V": nil}}
+	lists := [][]any{{}, {"V"}, {"V", "NOPE", "K=k", "W"}, {nil, 1, "V", true, []any{"x"}, map[string]any{"a": "b"}, "X"}, {"", "V=pv"}}
+	add := func(which string, model map[string]any, env map[string]string, class string) {
+		ctx.Count("resolveEnv:" + which)
+		ctx.Count("resolveEnv-shape:" + class)
+		ctx.Add("c06.resolveEnv", resolveArgs{Model: core.EncodeVal(model), Env: env, Which: which})
+	}
+	for _, which := range []string{"services", "secrets", "configs", "all", "included"} {
+		for _, env := range envs {
+			for _, sect := range []string{"services", "secrets", "configs"} {
+				for _, k := range kinds { // the section itself of every kind
+					add(which, map[string]any{sect: k, "other": "kept"}, env, "section-kind")
+				}
+				for _, k := range kinds { // an entry of every kind
+					add(which, map[string]any{sect: map[string]any{"e": k, "f": map[string]any{"environment": "V"}}}, env, "entry-kind")
+				}
+				for _, ev := range envVals { // `environment` of every kind / name
+					add(which, map[string]any{sect: map[string]any{"e": map[string]any{"environment": ev, "file": "./f"}}}, env, "environment-value")
+					add(which, map[string]any{sect: map[string]any{"e": map[string]any{"environment": ev, "x-#value": "old", "content": "old"}}}, env, "carrier-present")
+				}
+				for _, l := range lists {
+					add(which, map[string]any{sect: map[string]any{"e": map[string]any{"environment": l, "image": "i"}}}, env, "environment-list")
+				}
+			}
+			add(which, map[string]any{}, env, "empty-model")
+		}
+	}
+	pick := func(xs []any) any { return xs[ctx.Rng.Intn(len(xs))] }
+	for i := 0; i < ctx.Pick(1500, 15000); i++ {
+		model := map[string]any{}
+		for _, sect := range []string{"services", "secrets", "configs", "volumes"} {
+			if ctx.Rng.Intn(4) == 0 {
+				continue
+			}
+			if ctx.Rng.Intn(8) == 0 {
+				model[sect] = pick(kinds)
+				continue
+			}
+			m := map[string]any{}
+			for j := 0; j < 1+ctx.Rng.Intn(3); j++ {
+				var e any
+				switch ctx.Rng.Intn(6) {
+				case 0:
+					e = pick(kinds)
+				case 1, 2:
+					e = map[string]any{"environment": lists[ctx.Rng.Intn(len(lists))], "image": "i"}
+				default:
+					e = map[string]any{"environment": pick(envVals)}
+					if ctx.Rng.Intn(4) == 0 {
+						e.(map[string]any)[[]string{"x-#value", "content", "file"}[ctx.Rng.Intn(3)]] = "old"
+					}
+				}
+				m[fmt.Sprintf("e%d", j)] = e
+			}
+			model[sect] = m
+		}
+		add([]string{"services", "secrets", "configs", "all", "included"}[ctx.Rng.Intn(5)], model, envs[ctx.Rng.Intn(len(envs))], "random")
+	}
+}
+
+// streamPasteSymlinks (stream 8): directories reached through symbolic links.  `os.Stat` follows links: a
+// `project_directory` that is a link to a directory *is* the included project directory (its `.env` is read through the
+// link, the included model's relative paths are anchored on the link's name, as in the pasted single file); likewise an
+// included file reached through a linked directory, and an `env_file` that is a link to a regular file.
+func streamPasteSymlinks(ctx *core.Ctx) {
+	incDoc := func() map[string]any {
+		return map[string]any{
+			"services": map[string]any{"b": map[string]any{"image": "b-${V:-unset}", "build": map[string]any{"context": "./ctx"},
+				"volumes": []any{map[string]any{"type": "bind", "source": "./data", "target": "/t"}}, "environment": []any{"V"}}},
+			"secrets": map[string]any{"cert": map[string]any{"file": "./cert.pem"}, "tok": map[string]any{"environment": "V"}},
+			"configs": map[string]any{"cfg": map[string]any{"file": "cfg.txt"}},
+		}
+	}
+	targets := []struct{ link, target, real string }{
+		{"current", "releases/v2", "releases/v2"},
+		{"current", c06lib.Root + "/releases/v2", "releases/v2"},
+		{"links/cur", "../releases/v2", "releases/v2"},
+		{"current", "hop", "releases/v2"}, // a link to a link
+	}
+	for ti, t := range targets {
+		for variant := 0; variant < 6; variant++ {
+			for dotenv := 0; dotenv < 2; dotenv++ {
+				g := newGen(ctx, true)
+				links := map[string]string{t.link: t.target}
+				if t.target == "hop" {
+					links["hop"] = "releases/v2"
+				}
+				g.s.AddDir(t.real)
+				if dotenv == 1 {
+					g.s.AddEnv(t.real+"/.env", [][]string{{"V", "from-linked-dir"}})
+				}
+				entry := map[string]any{}
+				var ent c06lib.Entry
+				class := ""
+				switch variant {
+				case 0, 1, 2: // project_directory is the link (relative, ./relative, absolute)
+					g.s.AddYAML("shared/inc.yaml", variant%2, incDoc())
+					entry["path"] = "shared/inc.yaml"
+					entry["project_directory"] = []string{t.link, "./" + t.link, c06lib.Root + "/" + t.link}[variant]
+					ent = c06lib.Entry{Paths: []string{"shared/inc.yaml"}, ProjDir: t.link}
+					class = "symlink-project_directory"
+				case 3: // the included file lives in the linked directory
+					g.s.AddYAML(t.real+"/inc.yaml", 0, incDoc())
+					entry["path"] = t.link + "/inc.yaml"
+					ent = c06lib.Entry{Paths: []string{t.link + "/inc.yaml"}, ProjDir: t.link}
+					class = "symlink-file-directory"
+				case 4: // a sub-directory of the link as project directory
+					g.s.AddDir(t.real + "/deep")
+					g.s.AddYAML("shared/inc.yaml", 1, incDoc())
+					entry["path"] = "shared/inc.yaml"
+					entry["project_directory"] = t.link + "/deep"
+					ent = c06lib.Entry{Paths: []string{"shared/inc.yaml"}, ProjDir: t.link + "/deep"}
+					if dotenv == 1 {
+						g.s.AddEnv(t.real+"/deep/.env", [][]string{{"V", "from-deep"}})
+					}
+					class = "symlink-project_directory-sub"
+				case 5: // env_file is a link to a regular file
+					g.s.AddYAML("shared/inc.yaml", 0, incDoc())
+					g.s.AddEnv(t.real+"/my.env", [][]string{{"V", "from-linked-file"}})
+					links["my.env"] = t.link + "/my.env"
+					entry["path"] = "shared/inc.yaml"
+					entry["env_file"] = "my.env"
+					ent = c06lib.Entry{Paths: []string{"shared/inc.yaml"}, ProjDir: "shared", EnvFiles: []string{"my.env"}}
+					class = "symlink-env_file"
+				}
+				g.s.AddYAML("compose.yaml", 0, map[string]any{"include": []any{entry}, "services": map[string]any{"a": svc("a-${V:-unset}")}})
+				ctx.Count("paste:" + class)
+				ctx.Count(fmt.Sprintf("paste-symlink-target:%d", ti))
+				a := pasteArgs(g, "compose.yaml", []c06lib.Entry{ent}, nil, "paste", class)
+				a.Links = links
+				ctx.Add("c06.paste", a)
+			}
+		}
 	}
 }
 
